@@ -32,6 +32,16 @@ COPY_CALLS = {
     "core::slice::<impl [T]>::copy_from_slice": "copy_from_slice",
     "core::ptr::write_bytes": "write_bytes",
     "core::slice::<impl [T]>::clone_from_slice": "clone_from_slice",
+    # std operations that shift the remaining bytes inside the buffer (the view would no longer start at its old address)
+    "alloc::vec::Vec::<T, A>::drain": "Vec::drain",
+    "alloc::vec::Vec::<T, A>::remove": "Vec::remove",
+    "alloc::vec::Vec::<T, A>::insert": "Vec::insert",
+    "alloc::vec::Vec::<T, A>::splice": "Vec::splice",
+    "alloc::vec::Vec::<T, A>::retain": "Vec::retain",
+    "alloc::vec::Vec::<T, A>::split_off": "Vec::split_off",
+    "core::slice::<impl [T]>::copy_within": "copy_within",
+    "core::slice::<impl [T]>::rotate_left": "rotate_left",
+    "core::slice::<impl [T]>::rotate_right": "rotate_right",
 }
 
 # zero-copy operations by public name (def path suffix), with the vtable slot they may dispatch to
@@ -44,6 +54,37 @@ ZERO_COPY = [
     "bytes_mut::BytesMut::unsplit", "bytes_mut::<impl core::convert::From<bytes_mut::BytesMut> for bytes::Bytes>::from",
     "bytes::<impl core::convert::From<bytes::Bytes> for bytes_mut::BytesMut>::from",
 ]
+
+
+def says_shared(r):
+    """the relation is the *failed* outcome of a uniqueness test: !is_unique(..), count != 1, CAS(1 -> 0) not Ok"""
+    def mentions(e, what):
+        return any(isinstance(y, tuple) and y and y[0] in ("call", "ucall") and y[1].rsplit("::", 1)[-1] == what for y in walk(e))
+
+    def c(e):
+        e = canon(e)
+        return e[1] if isinstance(e, tuple) and e and e[0] == "const" else None
+    if r[0] == "truth":
+        e = canon(r[1])
+        top = e[1].rsplit("::", 1)[-1] if isinstance(e, tuple) and e and e[0] in ("call", "ucall") else None
+        if top == "is_unique":
+            return r[2] == 0
+        if top == "is_ok" and mentions(e, "compare_exchange"):
+            return r[2] == 0
+        if top == "is_err" and mentions(e, "compare_exchange"):
+            return r[2] == 1
+        if isinstance(e, tuple) and e and e[0] == "discr" and mentions(e, "compare_exchange"):
+            return r[2] == 1
+        return False
+    if r[0] in ("ne", "eq", "lt", "le") and len(r) > 2 and isinstance(r[2], tuple):
+        a, b = canon(r[1]), canon(r[2])
+        for (x, k) in ((a, c(b)), (b, c(a))):
+            if k is not None and isinstance(x, tuple) and x and x[0] == "call" and x[1].endswith("::load"):
+                if r[0] == "ne" and k == 1:
+                    return True
+        if r[0] == "lt" and c(a) == 1 and isinstance(b, tuple) and b and b[0] == "call" and b[1].endswith("::load"):
+            return True
+    return False
 
 
 def uncast_ptr(e):
@@ -87,8 +128,7 @@ def run(facts):
             if not guarded_unique(b, bi):
                 # must be positively on the failed edge of a uniqueness test
                 for r in rels:
-                    s_ = str(canon(r[1])) + str(canon(r[2]) if len(r) > 2 and isinstance(r[2], tuple) else "")
-                    if "is_unique" in s_ or "::load" in s_ or "compare_exchange" in s_:
+                    if says_shared(r):
                         return "failed edge of the uniqueness test (buffer is shared)"
                 return None
             return None
@@ -136,9 +176,18 @@ def run(facts):
         s = slots.get("into_mut")
         if s:
             d = s.get("did") if s.get("did") is not None else (s.get("res") or {}).get("did")
-            mb = facts.by_did[d]
-            takeover = any(get(v, "teardown") or get(v, "hout") or (get(v, "buf_own") and not get(v, "rel")) for v in a2.summary(mb))
-            if not takeover:
+            # immutable family (static / owner-backed memory): its is_unique slot is constant false, so a copy in into_mut is the
+            # documented behaviour. (Classified by what the family *reports*, not by what its into_mut happens to do: A11 ties
+            # the two together, and a reclaimable family whose into_mut starts copying must not exempt itself.)
+            iu = slots.get("is_unique")
+            const_false = False
+            if iu:
+                iud = iu.get("did") if iu.get("did") is not None else (iu.get("res") or {}).get("did")
+                ib = facts.by_did.get(iud)
+                if ib is not None:
+                    from .flow import return_expr
+                    const_false = canon(return_expr(ib, facts, inline=True)) == ("const", 0)
+            if const_false:
                 immutable_family_fns |= {d}
                 # and its direct helper chain that is not shared with reclaimable families
     # helper functions reachable only from immutable families
